@@ -8,7 +8,7 @@ import copy
 import itertools
 import json
 
-ALPH = ["announce+1", "announce-same", "announce-stale", "list", "restart"]
+ALPH = ["announce+1", "announce+2-overlapped", "announce-same", "announce-stale", "list", "restart"]
 
 
 class _Cfg:
@@ -53,6 +53,26 @@ class _Cfg:
             self.rig.acc.db[0][1][1][2].append(ch)
             self.rig.acc.chars[ch.iid] = ch
 
+    def _hold(self, on):
+        rig, loop = self.rig, self.rig.loop
+        if self.transport == "ip":
+            rig.auto_deliver = not on
+            if not on:
+                for _ in range(200):
+                    loop.run_until_idle()
+                    if not rig.outbox:
+                        break
+                    cc, data = rig.outbox.pop(0)
+                    cc.send(data)
+        else:
+            rig.hold = on
+            if not on:
+                for _ in range(200):
+                    loop.run_until_idle()
+                    if not rig.held:
+                        break
+                    rig.held.pop(0)()
+
     def served(self):
         if self.transport == "ip":
             return sorted((a["aid"], c["iid"]) for a in self.db["accessories"] for s in a["services"] for c in s["characteristics"])
@@ -70,6 +90,19 @@ class _Cfg:
             self.c += 1
             self.add_characteristic(self.c)
             p._async_description_update(self.descr(self.c))
+        elif sym == "announce+2-overlapped":
+            # two configuration changes in a row: the second is announced while the re-listing that the first one started is still in flight (the
+            # accessory has already rendered its answer to it, with the database as it was then)
+            self._hold(True)
+            self.c += 1
+            self.add_characteristic(self.c)
+            p._async_description_update(self.descr(self.c))
+            loop.run_until_idle()
+            self.c += 1
+            self.add_characteristic(self.c)
+            p._async_description_update(self.descr(self.c))
+            loop.run_until_idle()
+            self._hold(False)
         elif sym == "announce-same":
             p._async_description_update(self.descr(self.c))
         elif sym == "announce-stale":
